@@ -1,6 +1,7 @@
 import QModel.Pipeline
 import QModel.Calib
 import QProps.C11b
+import QProps.C09c
 /-!
 # C14 — quantize/calibrate are pure: no input mutation, no history dependence (model side)
 
@@ -37,5 +38,17 @@ theorem calibrate_depends_on_exported_recipe_only (rx : String → String → Bo
       Calib.calibrate rx env st' sgi prev samples = Calib.calibrate rx env (run cmds) sgi prev samples := by
   refine ⟨run cmds, ?_, rfl⟩
   rw [RecipeHistory.reload_reachable cmds hctor]
+
+/-- **earlier `calibrate()` calls leave no trace beyond the samples they saw**: two histories of
+    resumed calibration sessions over the same samples in the same order hand the same result to
+    `quantize()` — and therefore produce the same model -/
+theorem quantize_after_sessions_depends_on_samples_only (rx : String → String → Bool) (env : Env)
+    (st : Recipe.State) (sgi : Nat)
+    (D0 E0 : List Calib.Contents) (Ds Es : List (List Calib.Contents)) (q0 p0 r r' : Qsvs)
+    (hsame : D0 ++ Ds.flatten = E0 ++ Es.flatten)
+    (hD : Calib.calibrate rx env st sgi none D0 = .ok q0) (hE : Calib.calibrate rx env st sgi none E0 = .ok p0)
+    (cD : C09c.Chain rx env st sgi q0 Ds r) (cE : C09c.Chain rx env st sgi p0 Es r') :
+    quantizePure rx env st (some r) = quantizePure rx env st (some r') := by
+  rw [C09c.split_irrelevant rx env st sgi D0 E0 Ds Es q0 p0 r r' hsame hD hE cD cE]
 
 end C14
